@@ -10,7 +10,7 @@
 From Coq Require Import List Bool NArith PeanoNat.
 Import ListNotations.
 Require Import PV.Binder.Kind PV.Gen.Kinds PV.Binder.Sig PV.Binder.Bind PV.Binder.PyBind.
-Require Import PV.Proofs.BinderConcrete PV.Proofs.BinderValid PV.Proofs.BinderStar PV.Proofs.BinderMain PV.Proofs.BinderDef PV.Proofs.BinderGen PV.Proofs.BinderPositions.
+Require Import PV.Proofs.BinderConcrete PV.Proofs.BinderValid PV.Proofs.BinderStar PV.Proofs.BinderMain PV.Proofs.BinderDef PV.Proofs.BinderGen PV.Proofs.BinderPositions PV.Proofs.BinderRaw.
 Require Import PV.Binder.BindCore PV.Gen.BinderShape.
 Open Scope N_scope.
 
@@ -154,3 +154,45 @@ Example C05_positions_example :
      = Some [(1, SPos 0); (2, SPos 1); (3, SPos 2); (4, SVarPos 3 1); (5, SKw 5); (6, SVarKw [7])].
 Proof. exact positions_example. Qed.
 Print Assumptions C05_positions_example.
+
+(* 9. The star-argument half at the level of the RAW call  f(p.., *(..), *xs, .., k=..,
+      **{..}, **kw, ..)  (positional section `ps`, keyword section `ks`, as ast.Call keeps
+      them).  `raw_expands ne l npos kws`: replacing every *xs by some positionals (at
+      least one when ne) and every **kw by some keywords (non-empty when ne), in place,
+      yields npos positionals and the keywords kws in call order. *)
+
+(* CPython's binder does not depend on the order of the keywords *)
+Theorem C05_py_bind_perm : forall s n l l', valid_sig s = true -> Permutation.Permutation l l' ->
+  py_bind s n l = py_bind s n l'.
+Proof. exact py_bind_perm. Qed.
+Print Assumptions C05_py_bind_perm.
+
+(* what preprocess_args builds from a raw call (None = a keyword is given twice) *)
+Theorem C05_preprocess_canonical : forall ps ks, canonical ps ks ->
+  match preprocess (ps ++ ks) with
+  | Some a => a = mkActuals (repeat true (cnt_before ps)) (has_star ps) (map mkkw (flatk ks)) (has_ku ks) (has_ku ks)
+  | None => names_nodup (flatk ks) = false
+  end.
+Proof. exact preprocess_canonical. Qed.
+Print Assumptions C05_preprocess_canonical.
+
+(* an accepted raw call has an expansion that CPython binds — outside the guard
+   positional_after_star (known finding C05-positional-after-star-args, refuted in 4') *)
+Theorem C05_raw_accept_sound : forall s ps ks,
+  valid_sig s = true -> canonical ps ks -> positional_after_star (ps ++ ks) = false ->
+  call_ok s (ps ++ ks) = true ->
+  exists npos kws, raw_expands false (ps ++ ks) npos kws /\ py_bind s npos kws = true.
+Proof. exact raw_accept_sound. Qed.
+Print Assumptions C05_raw_accept_sound.
+
+(* a rejected raw call has no binding expansion that takes at least one element from every
+   star-argument (several *xs / **kw, interleaved with explicit arguments, positionals after
+   *xs included) — outside the guard kw_after_star_args (known finding
+   C05-keyword-after-star-args) *)
+Theorem C05_raw_reject_complete_partial : forall s ps ks,
+  valid_sig s = true -> canonical ps ks ->
+  (forall a, preprocess (ps ++ ks) = Some a -> kw_after_star_args s a = false) ->
+  call_ok s (ps ++ ks) = false ->
+  forall npos kws, raw_expands true (ps ++ ks) npos kws -> py_bind s npos kws = false.
+Proof. exact raw_reject_complete_partial. Qed.
+Print Assumptions C05_raw_reject_complete_partial.
